@@ -341,6 +341,11 @@ def check_errors():
     case("extra-member", lambda m: connect(m, ok_pair()[0], other({"a": In(2, init=1), "b": Out(3), "c": In(1), "s": In(Signature({"x": In(1), "y": Out(1).array(2)}))}).create()), True)
     case("width-mismatch", lambda m: connect(m, ok_pair()[0], other({"a": In(3, init=1), "b": Out(3), "s": In(Signature({"x": In(1), "y": Out(1).array(2)}))}).create()), True)
     case("initial-value-mismatch", lambda m: connect(m, ok_pair()[0], other({"a": In(2, init=2), "b": Out(3), "s": In(Signature({"x": In(1), "y": Out(1).array(2)}))}).create()), True)
+    case("initial-value-unspecified-vs-nonzero", lambda m: connect(m, Signature({"a": Out(8, init=5)}).create(), Signature({"a": In(8)}).create()), True)
+    case("initial-value-unspecified-vs-nonzero-reversed", lambda m: connect(m, Signature({"a": In(8)}).create(), Signature({"a": Out(8, init=5)}).create()), True)
+    case("initial-value-unspecified-vs-nonzero-nested", lambda m: connect(m, Signature({"s": Out(Signature({"a": Out(4, init=-3).array(2)}))}).create(),
+                                                                                 Signature({"s": In(Signature({"a": Out(4).array(2)}))}).create()), True)
+    case("initial-value-unspecified-equals-zero", lambda m: connect(m, Signature({"a": Out(8, init=0)}).create(), Signature({"a": In(8)}).create()), False)
     case("dimension-mismatch", lambda m: connect(m, ok_pair()[0], other({"a": In(2, init=1), "b": Out(3), "s": In(Signature({"x": In(1), "y": Out(1).array(3)}))}).create()), True)
     sub = lambda n: Signature({"x": In(1), "y": Out(1).array(2)})
     arr_a = Signature({"v": Out(sub(0)).array(2)})
